@@ -24,7 +24,8 @@ META = {
         "only stages and its lists are handed off exactly once; "
         "_parse_copyall stages exactly one tract with the unmodified chunk "
         "text and a single section; fallback placeholders are the error "
-        "ones. Which inputs end in the fallback is not decided."),
+        "ones. Which inputs end in the fallback is not decided."
+        ' Also: the clean-up default is decided after layout deduction, copy_all stages one section, `layout` is a PLSSDesc setting, lock-down of layout / segment.'),
     'families': ['LOCK', 'ONCE', 'TBL', 'DEFUSE', 'FORWARD', 'DEADPARAM', 'SIB-DEFAULTS'],
 }
 
